@@ -20,6 +20,7 @@ type Options struct {
 	Chunks      []int // sizes for successive Reads (cyclic); nil = unlimited
 	FailReadAt  int64 // fail the read once this many bytes were delivered (0 = never)
 	FailWriteN  int   // fail the n-th Write (1-based, 0 = never)
+	LateFailN   int   // the n-th Write reaches the peer completely and is then reported as failed (a timeout that fires after the bytes went out)
 	FailDial    bool  // refuse to dial
 	ReadDelayUS int   // sleep before each Read (schedule diversity only)
 }
@@ -89,6 +90,12 @@ func (c *Conn) Read(p []byte) (int, error) {
 func (c *Conn) Write(p []byte) (int, error) {
 	w := atomic.AddInt64(&c.writes, 1)
 	if c.opt.FailWriteN > 0 && int(w) == c.opt.FailWriteN {
+		return 0, errInjectedWrite
+	}
+	if c.opt.LateFailN > 0 && int(w) == c.opt.LateFailN {
+		if n, err := c.Conn.Write(p); err != nil {
+			return n, err
+		}
 		return 0, errInjectedWrite
 	}
 	return c.Conn.Write(p)
